@@ -364,7 +364,8 @@ theorem CInv.step (c : Chunk) (l : List (Int × Hist)) (inv : CInv c l) (t : Int
     (h1 : Hist) (hh1 : h1 = { h with pSpans := S1, nSpans := S2, pB := pB1, nB := nB1 })
     (c' : Chunk)
     (hc' : (pf = [] ∧ nf = [] ∧ c' = c.appendRaw t h1) ∨ (∃ c1, c.recode pf nf S1 S2 = .ok c1 ∧ c' = c1.appendRaw t h1)) :
-    CInv c' ((t, h) :: l) ∧ h1.sem = h.sem := by
+    CInv c' ((t, h) :: l) ∧ h1.sem = h.sem ∧
+      ((c'.pSpans = c.pSpans ∧ c'.nSpans = c.nSpans) ∨ (c'.pSpans = S1 ∧ c'.nSpans = S2)) := by
   -- the incoming histogram, recoded backwards, means the same
   have hS1' : idxs S1 = mergeU (idxs h.pSpans) (idxs c.pSpans) := by rw [hS1, mergeU_comm]
   have hS2' : idxs S2 = mergeU (idxs h.nSpans) (idxs c.nSpans) := by rw [hS2, mergeU_comm]
@@ -372,7 +373,9 @@ theorem CInv.step (c : Chunk) (l : List (Int × Hist)) (inv : CInv c l) (t : Int
   have bn := applyIns_bucketMap h.float h.nSpans S2 _ hS2' h.nB hwf.nLen nb pn.bpos pn.b nB1 hn1
   have hsem : h1.sem = h.sem := by subst hh1; simp [Hist.sem, bp.1, bn.1]
   have h1ns : h1.stale = false := by subst hh1; simpa [Hist.stale] using hns
-  refine ⟨?_, hsem⟩
+  suffices hmain : CInv c' ((t, h) :: l) ∧
+      ((c'.pSpans = c.pSpans ∧ c'.nSpans = c.nSpans) ∨ (c'.pSpans = S1 ∧ c'.nSpans = S2)) from
+    ⟨hmain.1, hsem, hmain.2⟩
   -- all samples of the chunk are live
   obtain ⟨s0, r0, hrev⟩ := List.exists_cons_of_ne_nil hne
   have hl0 : c.last = s0 := c.last_eq s0 r0 hrev
@@ -407,8 +410,8 @@ theorem CInv.step (c : Chunk) (l : List (Int × Hist)) (inv : CInv c l) (t : Int
         intro s hs; rcases List.mem_cons.1 hs with rfl | hs
         · exact hsumne
         · exact (hall s hs).1
-      refine ⟨⟨?_, ?_⟩, inv.pS, inv.nS, hwfs, ?_, hadj' _ rfl, fun s hs hst => absurd hst (hlive' s hs),
-        fun s hs hst => absurd hst (hlive' s (List.mem_of_getLast? hs))⟩
+      refine ⟨⟨⟨?_, ?_⟩, inv.pS, inv.nS, hwfs, ?_, hadj' _ rfl, fun s hs hst => absurd hst (hlive' s hs),
+        fun s hs hst => absurd hst (hlive' s (List.mem_of_getLast? hs))⟩, Or.inl ⟨rfl, rfl⟩⟩
       · refine Rep_new _ t h hns pB1 nB1 hfl.symm hsch.symm hzt.symm hcu.symm ?_ ?_ ?_ ?_
         · rw [← bp.1]; exact bucketMap_congr _ _ _ _ e1.symm
         · rw [← bn.1]; exact bucketMap_congr _ _ _ _ e2.symm
@@ -433,8 +436,8 @@ theorem CInv.step (c : Chunk) (l : List (Int × Hist)) (inv : CInv c l) (t : Int
         · exact hsumne
         · obtain ⟨s', hs', hr⟩ := All2.mem_left hall2 s hs
           rw [hr.2.1]; exact (hall s' hs').1
-      refine ⟨⟨?_, ?_⟩, ?_, ?_, hwfs, ?_, ?_, fun s hs hst => absurd hst (hlive' s hs),
-        fun s hs hst => absurd hst (hlive' s (List.mem_of_getLast? hs))⟩
+      refine ⟨⟨⟨?_, ?_⟩, ?_, ?_, hwfs, ?_, ?_, fun s hs hst => absurd hst (hlive' s hs),
+        fun s hs hst => absurd hst (hlive' s (List.mem_of_getLast? hs))⟩, Or.inr ⟨rp, rn⟩⟩
       · refine Rep_new _ t h hns pB1 nB1 (by simp [rfl1, hfl]) (by simp [rsch, hsch]) (by simp [rzt, hzt])
           (by simp [rcu, hcu]) ?_ ?_ ?_ ?_
         · show bucketMap h.float c1.pSpans pB1 = _
